@@ -242,6 +242,46 @@ async def client_attempts_case(loop, names, expected, when="ctor"):
     return outs, reads
 
 
+async def overlapping_finish_case(loop, refusal, gap):
+    """Two finish_connection() calls on one connection overlap (the second `gap` loop turns after the first); the device answers the
+    hello with an unsupported major version / another name than expected / a rejected password. Neither call may return normally.
+    Returns (outcomes of the two calls, final state, stop calls)."""
+    from aioesphomeapi import api_pb2 as pb
+    from aioesphomeapi.connection import APIConnection, ConnectionParams, ConnectionState as S
+    from aioesphomeapi.zeroconf import ZeroconfManager
+    net = simnet.Net(loop)
+    stops = []
+    params = ConnectionParams(addresses=["10.0.0.1"], port=6053, password="pw", client_info="v", keepalive=20.0,
+                              zeroconf_manager=ZeroconfManager(), noise_psk=None, expected_name="dev")
+    conn = APIConnection(params, lambda e: stops.append(e), False, None)
+    with net.patched():
+        await conn.start_connection()
+        t1 = asyncio.ensure_future(conn.finish_connection(login=True))
+        for _ in range(gap):
+            await asyncio.sleep(0)
+        t2 = asyncio.ensure_future(conn.finish_connection(login=True))
+        await simnet.drain(loop)
+        tr = net.transports[-1]
+        hello = pb.HelloResponse(api_version_major=3 if refusal == "version" else 1, api_version_minor=10, name="other" if refusal == "name" else "dev")
+        tr.feed(simnet.plain_msg(hello) + simnet.plain_msg(pb.ConnectResponse(invalid_password=refusal == "password")))
+        await simnet.drain(loop)
+        outs = []
+        for t in (t1, t2):
+            if not t.done():
+                t.cancel()
+                outs.append("pending")
+            elif t.cancelled():
+                outs.append("C")
+            elif t.exception() is None:
+                outs.append("ok")
+            else:
+                outs.append(conntrace.exc_name(t.exception()))
+        state = conn.connection_state.name
+        conn.force_disconnect()
+        await simnet.drain(loop)
+    return outs, state, stops
+
+
 def noise_oracle(case):
     # the server hello name is checked by the frame helper first (if a name is announced), then the HelloResponse
     if case["server_name"] not in ("-",) and case["expect"] and case["server_name"] != "x":
@@ -330,6 +370,18 @@ def run(rep, tier, seed):
                           f"the name rule gives {want}", replay)
         elif any(r != expected for r in reads):
             rep.violation("C06/expected-name-changed", f"APIClient.expected_name configured as {expected!r} reads {reads} after the attempts against {names}", replay)
+    # ---- two overlapping finish_connection() calls against a device that is refused: neither may come back as a success
+    for refusal, want in (("version", "L.APIVersion"), ("name", "L.BadName"), ("password", "L.InvalidAuth"), ("none", None)):
+        for gap in (0, 1, 3):
+            outs, state, stops = simnet.run(lambda loop: overlapping_finish_case(loop, refusal, gap))
+            rep.case(("overlapping-finish", refusal, gap), True, sample={"overlapping_finish": refusal, "gap": gap, "outcomes": outs, "state": state})
+            rep.bump("probe:overlapping-finish")
+            replay = {"kind": "impl-case", "transport": "plaintext", "variant": "overlapping-finish", "refusal": refusal, "gap": gap}
+            if refusal != "none" and ("ok" in outs or state != "CLOSED" or stops):
+                rep.violation("C06/accepted-bad-device:overlap", f"device refused ({refusal}), two overlapping finish_connection() calls (second {gap} turn(s) later): the calls ended {outs}, "
+                              f"state {state}, stop calls {stops} - connecting succeeds only with a compatible, correctly named, authenticated device", replay)
+            elif refusal == "none" and outs[0] != "ok":
+                rep.violation("C06/rejected-good-device", f"good device, two overlapping finish_connection() calls: the first ended {outs[0]}", replay)
     # ---- the login verdict through the public client, with and without a configured password
     for password in (None, "", "pw"):
         for invalid in (True, False):
@@ -358,6 +410,10 @@ def replay(path):
     if d.get("kind") != "impl-case":
         print("nothing to replay:", d.get("kind"))
         return 0
+    if d.get("variant") == "overlapping-finish":
+        outs, state, stops = simnet.run(lambda loop: overlapping_finish_case(loop, d["refusal"], d["gap"]))
+        print(outs, state, stops)
+        return 1 if (d["refusal"] != "none" and ("ok" in outs or state != "CLOSED" or stops)) else 0
     if d.get("variant") == "client-attempts":
         outs, reads = simnet.run(lambda loop: client_attempts_case(loop, d["names"], d["expected"], d.get("when", "ctor")))
         want = ["ok" if (d["expected"] is None or n == d["expected"]) else "L.BadName" for n in d["names"]]
